@@ -61,7 +61,7 @@ CLAIMS.update({
             "TlsAdmission.tla is the admission reference (minimum version, certificate validity per mode, single role extension); TlsAdmission_MC checks it against the statements of C09 over the whole configuration x peer grid; real handshakes on loopback between rodbus TLS servers (Rust and C ABI constructors, authority and self-signed modes, min 1.2 / 1.3, with and without authorization) and an independently configured rustls peer with pinned versions and fixture certificates are validated by TLC: outcome, negotiated version and the role seen by the authorization handler",
             "§7 C09", TRUST + "rustls/webpki/ring internals; fixture certificate facts tabulated in TlsAdmission!CertInfo; both roles: rodbus servers against a rustls client peer and the rodbus TLS client against a rustls server peer"),
     "C15": ("e4-servertask", "model_checking",
-            "ServerTaskTrace.tla models the tracker (ids in age order), per-connection fate and the shared database; random histories of connects / requests / closes / malformed headers / half frames / decode changes / shutdown / handle drop with max_sessions 0..3 on loopback TCP, and TLS servers with sessions stalled in the handshake, are validated by TLC using the tracker hook events (size <= max, evicted = oldest at every step) and the peers' view (reply computed by the reference server, EOF, refused); a session may leave the tracker only for a cause on its own connection (isolation); design level: ServerTask_MC (bounded queues, peers that stop reading or close, liveness of shutdown, negative control F14) and behaviours simulated from it by TLC (ServerTask_Sim) replayed on the production server task; close bursts also on a current-thread runtime, where they are deterministic",
+            "ServerTaskTrace.tla models the tracker (ids in age order), per-connection fate and the shared database; random histories of connects / requests / closes / malformed headers / half frames / decode changes / shutdown / handle drop with max_sessions 0..3 on loopback TCP, and TLS servers with sessions stalled in the handshake, are validated by TLC using the tracker hook events (size <= max, evicted = oldest at every step) and the peers' view (reply computed by the reference server, EOF, refused); a session may leave the tracker only for a cause on its own connection (isolation); design level: ServerTask_MC (bounded queues, peers that stop reading or close, liveness of shutdown, negative control F14) and behaviours simulated from it by TLC (ServerTask_Sim) replayed on the production server task; close bursts also on a current-thread runtime, where they are deterministic; the table's invariants (never above max, eviction only when full and only of the oldest) proved with TLAPS for every max_sessions (TrackerProof)",
             "§7 C15", TRUST + "eviction / close timing is observed through hook events and bounded waits (no deterministic scheduler under tokio)"),
     "C16": ("e4-servertask", "model_checking",
             "AddressFilter.tla (Matches, WildcardClass) evaluated by TLC judges the hook-reported filter decision and the peer's view for filters {any, exact, set, wildcard lattice} x aliased loopback sources (IPv4 and ::1) x {TCP, TLS, TLS+authz} x {Rust API, C ABI}, and 3 000+ wildcard strings through WildcardIPv4::from_str and rodbus_address_filter_create",
